@@ -207,4 +207,8 @@ def run (w : World) : List LOp → World × List LOut
     let (w2, os) := run w1 rest
     (w2, o :: os)
 
+/-- `frame_by_header_id(q)`: a plain scan, the first frame of the matrix whose header id equals `q` (frames are `(handle, header id)`) -/
+def byHeaderId (frames : List (Nat × Option Nat)) (q : Nat) : Option Nat :=
+  (frames.find? fun f => f.2 == some q).map (·.1)
+
 end CanVerif
